@@ -69,7 +69,7 @@ TInitEnd == /\ IsEvent("InitEnd")
             /\ Running /\ IsModuleKind(Top.kind)
             /\ Ev.name = Top.name
             /\ Leave
-            /\ Ev.n = Cardinality(modcache')
+            /\ Ev.n = Cardinality({k \in modcache' : k[1] = CssHeadOf(stack')})     \* size of that holder's map
             /\ Consume
 
 TUnlock == /\ IsEvent("Unlock") /\ result = "run" /\ Len(stack) >= 1
